@@ -585,6 +585,25 @@ func runC07(c *kit.Ctx) {
 			default:
 				c.OK("R07.3", key, posOf(st.Store), "padding, or joinedPath absent from the map and inserted under the same key; map created before the loop")
 			}
+			// the compared key is canonical: storage folds 'a/./b', 'a//b' and 'a/b' together
+			// (filepath.Clean in FileStorage.Open), so the duplicate test must compare cleaned paths
+			canonical := func(e *kit.Expr) bool {
+				return e.Kind == "call" && e.Fn != nil && kit.FnPkgPath(e.Fn) == "path/filepath" && (e.Fn.Name() == "Join" || e.Fn.Name() == "Clean")
+			}
+			pe := kit.Canon(p)
+			okKey := canonical(pe)
+			if !okKey && pe.Kind == "call" && pe.Fn != nil && kit.InModule(kit.FnPkgPath(pe.Fn)) {
+				rs := returnsOf(pe.Fn)
+				okKey = len(rs) > 0
+				for _, r := range rs {
+					if len(r.Results) == 0 || !canonical(kit.Canon(r.Results[0])) {
+						okKey = false
+					}
+				}
+			}
+			c.Check(okKey, "R07.3", k.key(fn, "duplicate key is a cleaned path"), posOf(st.Store),
+				"the path compared by the duplicate test is the result of filepath.Join / filepath.Clean",
+				"the path stored and compared by the duplicate test ("+pe.String()+") is not produced by filepath.Join / filepath.Clean: 'd/a', 'd/./a' and 'd//a' are different strings for the test but the same file for the storage (filepath.Clean in Open), so two files of one torrent can resolve to the same path")
 		}
 		c.Floor("R07.3", "multi-file File stores", n, 1)
 	}
